@@ -22,15 +22,20 @@ func h8(b []byte) string { s := sha256.Sum256(b); return hex.EncodeToString(s[:8
 // cabPayload reads a cabinet by absolute offsets as [MS-CAB] prescribes (coffFiles, coffCabStart, cbCabinet), extracts
 // every file (stored and MSZIP), and renders header fields that signing must not change. The per-cabinet reserve area,
 // cbCabinet, coffFiles, the RESERVE_PRESENT flag bit and anything after cbCabinet are deliberately not part of the view.
-func cabPayload(f []byte) (string, error) {
+func cabPayload(f []byte) (view string, err error) {
+	defer func() {
+		if r := recover(); r != nil {
+			view, err = "", fmt.Errorf("reader gave up: %v", r)
+		}
+	}()
 	if len(f) < 36 || string(f[:4]) != "MSCF" {
 		return "", errors.New("not a cabinet")
 	}
 	cbCabinet := int(le.Uint32(f[8:]))
 	coffFiles := int(le.Uint32(f[16:]))
 	nFolders, nFiles, flags := int(le.Uint16(f[26:])), int(le.Uint16(f[28:])), int(le.Uint16(f[30:]))
-	if cbCabinet > len(f) {
-		return "", errors.New("cbCabinet beyond end of file")
+	if cbCabinet > len(f) || cbCabinet < 36 {
+		return "", errors.New("cbCabinet out of range")
 	}
 	f = f[:cbCabinet]
 	pos := 36
